@@ -1,6 +1,7 @@
 import Librfn.Model.PT
 import Librfn.Spec.PT
 import Librfn.Lemmas.PT
+import Librfn.Lemmas.PTSplit6
 /-!
 # C08 — protothreads resume exactly where they blocked and relay child results
 
@@ -66,5 +67,78 @@ theorem resume_is_residual (fuel : Nat) (s : Stmt) (l : Label) (res : Code) (n :
     simp [labels] at hl; subst hl
     simp only [residual]
     rw [exec_sac, exec_seq_left _ _ _ _ _ _ _ (by simp [labels]), exec_seq_none, exec_spawn_at]
+
+/-- concatenation over invocations of (effects ++ [return code]) -/
+def flatLog (logs : List (List Ev × Nat)) : List Ev := (logs.map Prod.fst).flatten
+
+/-- the events of a finished run: what happened, then the code the function finally returned -/
+def close : Out → List Ev
+  | .normal _ _ _ t => t ++ [.ret .exited]
+  | .ret c _ _ t => t ++ [.ret c]
+  | .abort t => t ++ [.abort]
+
+theorem close_prepend (p : List Ev) (r : Out) : close (r.prepend p) = p ++ close r := by
+  cases r <;> simp [close, Out.prepend, List.append_assoc]
+
+theorem seqRun_eq (fuel body n st) : seqRun fuel body n st = (exec fuel body none .yielded n st.bump).map close := by
+  unfold seqRun
+  cases exec fuel body none .yielded n st.bump with
+  | none => rfl
+  | some r => cases r <;> rfl
+
+theorem mainLoop_of_exec (fuel : Nat) (body : Stmt) (hwf : WF body) :
+    ∀ n e st r, entryOf body st.me.pt = some e → exec fuel body e .yielded n st.bump = some r →
+      (mainLoop fuel body (n + 1) st).map flatLog = some (close r) := by
+  intro n
+  induction n with
+  | zero =>
+    intro e st r hent h
+    have hent' : entryOf body st.bump.me.pt = some e := hent
+    simp only [mainLoop, invoke, hent', h]
+    cases r with
+    | normal st1 res n1 t => simp [Code.blocking, flatLog, close]
+    | abort t => simp [flatLog, close]
+    | ret c st1 n1 t =>
+      dsimp only
+      by_cases hb : c.blocking = true
+      · simp [hb, flatLog, close]
+      · simp [hb, flatLog, close]
+  | succ n ih =>
+    intro e st r hent h
+    have hent' : entryOf body st.bump.me.pt = some e := hent
+    obtain ⟨r0, h0, hR⟩ := split_at fuel body hwf e .yielded n st.bump r (entryOf_entry hent') h
+    rw [mainLoop]
+    simp only [invoke, hent', h0]
+    cases r0 with
+    | normal st1 res n1 t =>
+      obtain ⟨_, hr⟩ := hR; subst hr; simp [Code.blocking, flatLog, close]
+    | abort t => simp only [Resumes] at hR; subst hR; simp [flatLog, close]
+    | ret c st1 n1 t =>
+      simp only [Resumes] at hR
+      dsimp only
+      by_cases hb : c.blocking = true
+      · rw [if_pos hb] at hR ⊢
+        obtain ⟨hpt, r', hr', hr⟩ := hR
+        have := ih (some st1.me.pt) st1 r' (entryOf_label hpt (hwf.pos _ hpt)) hr'
+        rcases Option.map_eq_some_iff.1 this with ⟨logs, hlogs, hflat⟩
+        rw [hlogs]; subst hr
+        simp only [Option.map_some, Option.some.injEq]
+        rw [close_prepend, ← hflat]; simp [flatLog]
+      · rw [if_neg hb] at hR ⊢
+        obtain ⟨_, hr⟩ := hR; subst hr; simp [flatLog, close]
+
+/-- **repeatedly invoking a protothread function executes its body as one sequential program cut at
+its blocking points**: whenever the body, run from its start as one sequential program that passes
+through at most `n` blocking points (each emitting its return code as an event), finishes within the
+fuel with the event list `evs`, then the main loop `for (;;) { tick++; s = f(&pt); ... }` — at most
+`n+1` real invocations, each entering through `switch (*pt)` at the stored label — logs exactly `evs`:
+the concatenation over invocations of (effects ++ [return code]).  All bodies with unique labels,
+all stores, children to any depth. -/
+theorem invocations_concat (fuel : Nat) (body : Stmt) (n : Nat) (st : St) (evs : List Ev)
+    (hwf : WF body) (h0 : st.me.pt = 0) (h : seqRun fuel body n st = some evs) :
+    (mainLoop fuel body (n + 1) st).map flatLog = some evs := by
+  rw [seqRun_eq] at h
+  rcases Option.map_eq_some_iff.1 h with ⟨r, hr, rfl⟩
+  exact mainLoop_of_exec fuel body hwf n none st r (by simp [entryOf, h0]) hr
 
 end Librfn.C08
